@@ -17,6 +17,11 @@ func init() { checks["C17"] = c17 }
 
 // streamSpec: src(n) -> PROD ({os:out} [+ regular 'side' output]) -> CONS
 func streamSpec(name string, n, max int, mixed bool) *spec.Spec {
+	return streamSpecAt(name, n, max, mixed, "st/")
+}
+
+// streamSpecAt places the stream path below prefix (a directory that need not exist yet).
+func streamSpecAt(name string, n, max int, mixed bool, prefix string) *spec.Spec {
 	s := &spec.Spec{Name: name, MaxTasks: max, Sources: map[string]string{}}
 	src := &spec.Proc{Name: "src", Kind: spec.KFileSource}
 	for i := 0; i < n; i++ {
@@ -30,7 +35,7 @@ func streamSpec(name string, n, max int, mixed bool) *spec.Spec {
 	}
 	s.Procs = append(s.Procs, src,
 		&spec.Proc{Name: "PROD", Kind: spec.KCmd, Cmd: spec.BuildCmd("PROD", []spec.PortDecl{{Name: "in"}}, outs, nil, nil, nil),
-			Outs: []*spec.Out{{Port: "out", Pattern: "st/{i:in|basename}.stream"}}},
+			Outs: []*spec.Out{{Port: "out", Pattern: prefix + "{i:in|basename}.stream"}}},
 		&spec.Proc{Name: "CONS", Kind: spec.KCmd, Cmd: spec.BuildCmd("CONS", []spec.PortDecl{{Name: "in"}}, []spec.PortDecl{{Name: "out"}}, nil, nil, nil),
 			Outs: []*spec.Out{{Port: "out", Pattern: "{i:in|basename}.consumed"}}})
 	s.Conns = append(s.Conns, &spec.Conn{From: "src.out", To: "PROD.in"}, &spec.Conn{From: "PROD.out", To: "CONS.in"})
@@ -77,7 +82,11 @@ func c17(args []string) {
 		j := jobs[i]
 		root := c.CaseDir()
 		defer c.Drop(root)
-		s := streamSpec(fmt.Sprintf("st%d", i), j.n, j.max, j.mixed)
+		prefix := []string{"st/", "", "st/deep/er/", "../sup/", root + "/abs/sdir/"}[i%5]
+		if j.rerun {
+			prefix = "st/"
+		}
+		s := streamSpecAt(fmt.Sprintf("st%d", i), j.n, j.max, j.mixed, prefix)
 		bh := vproto.Behaviours{"PROD": {"size": fmt.Sprint(j.size)}}
 		switch j.order {
 		case "producer-last":
@@ -92,7 +101,7 @@ func c17(args []string) {
 		if exp.Err != "" {
 			c.Broken("reference cannot evaluate the streaming workflow: " + exp.Err)
 		}
-		desc := map[string]interface{}{"n": j.n, "max": j.max, "payload_size": j.size, "exit_order": j.order, "producer_has_regular_output": j.mixed, "cfg": j.cfg, "spec": s, "behav": bh}
+		desc := map[string]interface{}{"stream_path_prefix": prefix, "n": j.n, "max": j.max, "payload_size": j.size, "exit_order": j.order, "producer_has_regular_output": j.mixed, "cfg": j.cfg, "spec": s, "behav": bh}
 		cfg1 := j.cfg
 		cfg1.SoftSec = 0
 		res := execSpec(c, root, s, cfg1, bh, false, 0)
